@@ -463,6 +463,24 @@ theorem c18_claim_bounded (p : Pairing) (now : Nat) (code : String) (req : Optio
             simp [List.filter]
             omega
 
+/-- **A restart invalidates an outstanding pairing code**: the pending code lives in memory only,
+so after the store is re-opened every claim fails until a new pairing is started. -/
+theorem c18_reload_drops_pending_code (p : Pairing) (now : Nat) (code : String) (req : Option Role)
+    (fresh : String) : (p.reload.claim now code req fresh).2 = false := by
+  simp [Pairing.reload, Pairing.claim]
+
+/-- **Starting a new pairing replaces the old code**: once `start_pairing` ran again, a claim with
+anything but the new code fails (the old code cannot be used any more), and it leaves the new code
+pending. -/
+theorem c18_start_replaces_code (p : Pairing) (now now' : Nat) (newCode code : String)
+    (req : Option Role) (fresh : String) (hne : newCode ≠ trimmed code) :
+    ((p.start now newCode).claim now' code req fresh).2 = false := by
+  unfold Pairing.start Pairing.claim
+  simp only
+  split
+  · rfl
+  · simp
+
 /-- Non-vacuity of the pairing-code theorems: a live code is accepted once (surrounding blanks trimmed),
 the same claim repeated is refused, and the same code after its expiry is refused. -/
 example :
